@@ -12,21 +12,29 @@ Definition c0 : cfg := cfg_of_table lock_scopes.
 
 (** The current source has the statement shapes the model's programs are ported from,
     every access of the worker's functions is either guarded by the mutex that guards
-    the client's accesses to the same member or (StartWork's unlocked look at the queue)
-    made when no worker exists; Notify tests the handler under the lock and
-    ClearNotificationHandler takes it.  Finite domain: the generated table itself. *)
+    the client's accesses to the same member or made when no worker exists; Notify tests the
+    handler under the lock and ClearNotificationHandler takes it.  The StartWork/Run hand-over
+    is the repaired one (running_ under Deployer::mutex_): so say the statement skeletons of
+    Run/FinishWork/StartWork ([handover_fact], clang AST) and, independently, the access rows of
+    the table ([ho c0] = [handover_of_table lock_scopes]).  Finite domain: the generated table. *)
 Theorem C15_table_recognised :
   table_shape_ok lock_scopes = true /\ table_ok lock_scopes = true /\
-  lk_ntest c0 = true /\ lk_clear c0 = true /\ lk_set c0 = true.
+  lk_ntest c0 = true /\ lk_clear c0 = true /\ lk_set c0 = true /\
+  handover_fact = HFlag /\ ho c0 = handover_fact.
 Proof. vm_compute. repeat split; reflexivity. Qed.
 Print Assumptions C15_table_recognised.
+
+Lemma c0_flag : nw c0 = true.
+Proof. vm_compute. reflexivity. Qed.
 
 (** race_free: in no reachable state do the next accesses of the worker and of the client
     (rows of the generated table) touch the same member, one of them writing, without a
     common mutex. *)
 Theorem C15_race_free :
   forall h0 sc s, reach c0 h0 sc s -> race_state lock_scopes s = false.
-Proof. intros h0 sc s. apply race_free_holds. exact (proj1 (proj2 C15_table_recognised)). Qed.
+Proof.
+  intros h0 sc s. apply race_free_holds; [exact (proj1 (proj2 C15_table_recognised))|reflexivity].
+Qed.
 Print Assumptions C15_race_free.
 
 (** the handler is never called empty and join never rethrows *)
@@ -126,7 +134,7 @@ Theorem C15_task_conserved :
 Proof. exact (task_conserved_holds c0). Qed.
 Print Assumptions C15_task_conserved.
 
-(** task_not_lost (the strongest form true of the model): when IsWorking() is false -
+(** task_not_lost (the strongest form true of the hand-over before the repair; it still holds): when IsWorking() is false -
     is_maintenance_mode() returns False, join returns - every task scheduled before the
     last worker was started (the start_maintenance / sync_user_data that spawned it
     returned after ESpawn) has been executed. *)
@@ -139,27 +147,90 @@ Qed.
 Print Assumptions C15_task_not_lost.
 
 (** The full reading of "each scheduled task is run before the service reports that
-    maintenance is over" is FALSE of the faithful model: the worker's exit window
-    (witness_window_*; replayed on the real library by checks/c15.py, recorded in
-    known_findings.json). *)
-Theorem C15_every_task_runs_before_idle_refuted : ~ every_task_runs_before_idle_full c0.
-Proof. exact (every_task_runs_before_idle_refuted c0). Qed.
+    maintenance is over" HOLDS of the repaired hand-over, over all schedules and all client
+    scripts: at a call boundary of the client (every start call made so far has returned), with
+    IsWorking() false (is_maintenance_mode() returns False, join returns), every task scheduled
+    at any time - by the client or from inside a handler invocation - has been executed.
+    ([~ In EBadCall]: no notification threw; C15_no_bad_call shows that it never does.) *)
+Theorem C15_every_task_runs_before_idle :
+  forall h0 sc s t, reach c0 h0 sc s -> cpcs s = CIdle -> working s = false ->
+  In t (scheds (log s)) -> In t (execs (log s)).
+Proof.
+  intros h0 sc s t Hr Hc Hw. apply (every_task_runs_before_idle_holds c0 c0_flag h0 sc s t Hr Hc Hw).
+  exact (proj1 (C15_no_bad_call _ _ _ Hr)).
+Qed.
+Print Assumptions C15_every_task_runs_before_idle.
+
+(** already when the worker gives up its role (running_ cleared by its exit test; its future
+    need not be ready yet) nothing is left: at a call boundary, every scheduled task has run *)
+Theorem C15_every_task_runs_when_worker_quits :
+  forall h0 sc s t, reach c0 h0 sc s -> cpcs s = CIdle -> running s = false ->
+  In t (scheds (log s)) -> In t (execs (log s)).
+Proof.
+  intros h0 sc s t Hr Hc Hq. apply (every_task_runs_when_worker_quits c0 h0 sc s t c0_flag Hr Hc Hq).
+  exact (proj1 (C15_no_bad_call _ _ _ Hr)).
+Qed.
+Print Assumptions C15_every_task_runs_when_worker_quits.
+
+(** a start call is refused (returns False) only while running_ is set, and then a worker that has
+    not yet made its exit test exists (or the client itself is about to start one): the refused
+    call's tasks are seen by that worker's exit test *)
+Theorem C15_refused_start_has_a_worker :
+  forall h0 sc s, reach c0 h0 sc s -> running s = true ->
+  w_active (wpcs s) = true \/ c_decided (cpcs s) = true.
+Proof. intros h0 sc s. exact (flag_running_worker c0 h0 sc s c0_flag). Qed.
+Print Assumptions C15_refused_start_has_a_worker.
+
+(** the schedule that used to lose tasks 3,4,5 (worker parked after its exit test, sync_user_data
+    schedules three tasks and calls StartMaintenance), continued to the end of the script: the second
+    call now starts a second worker and returns True, all six tasks have run when
+    is_maintenance_mode() returns False.  Non-vacuity of C15_every_task_runs_before_idle: this state
+    meets its hypotheses with tasks scheduled inside the exit window. *)
+Theorem C15_window_closed : exists s,
+  run_macro c0 (init true witness_window_script) witness_closed_sched = Some s /\
+  cpcs s = CIdle /\ script s = [] /\ working s = false /\ running s = false /\ ~ In EBadCall (log s) /\
+  hd_error (log s) = Some (ERet RIsMaint 0) /\ ~ In (ERet RSyncUser 0) (log s) /\
+  scheds (log s) = [5; 4; 3; 2; 1; 0] /\ execs (log s) = [5; 4; 3; 2; 1; 0] /\ queue s = [].
+Proof. exact (window_closed_witness c0 c0_flag). Qed.
+Print Assumptions C15_window_closed.
+
+(** tasks scheduled just before the worker's exit test: the call returns False, the same worker
+    (one spawn) runs them *)
+Theorem C15_window_seen : exists s,
+  run_macro c0 (init true witness_window_script) witness_seen_sched = Some s /\
+  cpcs s = CIdle /\ script s = [] /\ working s = false /\ ~ In EBadCall (log s) /\
+  hd_error (log s) = Some (ERet RIsMaint 0) /\ In (ERet RSyncUser 0) (log s) /\
+  execs (log s) = [5; 4; 3; 2; 1; 0] /\
+  List.length (filter (fun e => match e with ESpawn => true | _ => false end) (log s)) = 1.
+Proof. exact (window_seen_witness c0 c0_flag). Qed.
+Print Assumptions C15_window_seen.
+
+(** BEFORE the repair (hand-over through the future: StartWork tests IsWorking(), the worker's last
+    HasPendingTasks() and its return are separate - librime up to c6a26de) the full reading is FALSE
+    of the faithful model, whatever the lock configuration: the worker's exit window (finding 8,
+    replayed on the real library, repaired by 9f55844).  [c_before] is the current lock
+    configuration with that hand-over. *)
+Definition c_before : cfg := with_handover HFuture c0.
+
+Theorem C15_every_task_runs_before_idle_refuted :
+  forall c, nw c = false -> ~ every_task_runs_before_idle_full c.
+Proof. exact every_task_runs_before_idle_refuted. Qed.
 Print Assumptions C15_every_task_runs_before_idle_refuted.
 
 Theorem C15_window_witness : exists s,
-  run_macro c0 (init true witness_window_script) witness_window_sched = Some s /\
+  run_macro c_before (init true witness_window_script) witness_window_sched = Some s /\
   cpcs s = CIdle /\ script s = [] /\ working s = false /\ ~ In EBadCall (log s) /\
   hd_error (log s) = Some (ERet RIsMaint 0) /\ In (ERet RSyncUser 0) (log s) /\
   In 3 (scheds (log s)) /\ ~ In 3 (execs (log s)) /\ map fst (queue s) = [3; 4; 5].
-Proof. exact (window_witness c0). Qed.
+Proof. exact (window_witness c_before eq_refl). Qed.
 Print Assumptions C15_window_witness.
 
 Theorem C15_window_witness_start_maintenance : exists s,
-  run_macro c0 (init true witness_window_sm_script) witness_window_sched = Some s /\
+  run_macro c_before (init true witness_window_sm_script) witness_window_sched = Some s /\
   hd_error (log s) = Some (ERet RIsMaint 0) /\
   hd_error (tl (tl (tl (log s)))) = Some (ERet RStartMaint 1) /\
   In 3 (scheds (log s)) /\ ~ In 3 (execs (log s)).
-Proof. exact (window_witness_start_maintenance c0). Qed.
+Proof. exact (window_witness_start_maintenance c_before eq_refl). Qed.
 Print Assumptions C15_window_witness_start_maintenance.
 
 (** notif_bracketed: with a handler installed throughout, the "deploy" notifications form
